@@ -275,7 +275,8 @@ Definition project_state (c : chain) : list row :=
   ++ [Row 12 [sp_unbonding_time (params s); sp_max_validators (params s); sp_max_entries (params s);
               sp_historical_entries (params s); sp_bond_denom (params s); default (-1) (sp_min_commission (params s))]]
   ++ map (fun k => match infos (sl c) !! k with
-                   | Some i => Row 13 [k; si_start i; si_index i; si_until i; b2z (si_tomb i); si_missed i]
+                   | Some i => Row 13 [k; si_start i; si_index i; si_until i; b2z (si_tomb i); si_missed i;
+                                       Z.of_nat (length (default [] (bitmaps (sl c) !! k)))]   (* missed bits in the window's bitmap *)
                    | None => Row 13 [k]
                    end) (sort_by Z.leb (map fst (map_to_list (infos (sl c)))))
   ++ map (fun p => Row 14 [p_oper p; p_cons p; p_rate p; p_maxrate p; p_maxchg p; p_moniker p]) (pending (poa c))
